@@ -107,14 +107,15 @@ func (s *vc11Stream) Send(r *hapb.BulkSyncResponse) error {
 func (s *vc11Stream) Context() context.Context { return context.Background() }
 
 // ---------- the active node's session tables, as the components expose them to the HA manager ----------
-type vc11Iter struct{ live map[string]*vc11Sess }
+// order: keys in the order the sessions became live (a released and re-created session moves to the end), the
+// order the model's snapshot uses; production iterates Go maps, i.e. in no particular order
+type vc11Iter struct {
+	live  map[string]*vc11Sess
+	order *[]string
+}
 
 func (it *vc11Iter) ForEachSession(fn func(models.SubscriberSession) bool) {
-	keys := make([]string, 0, len(it.live))
-	for k := range it.live {
-		keys = append(keys, k)
-	}
-	sort.Strings(keys)
+	keys := append([]string(nil), (*it.order)...)
 	snap := make([]models.SubscriberSession, 0, len(keys))
 	for _, k := range keys {
 		s := *it.live[k]
@@ -678,7 +679,8 @@ func vc11Hist(f []string) string {
 	sent := map[int][]*hapb.SyncSessionRequest{}
 	next := map[int]int{}
 	live := map[string]*vc11Sess{} // "ns/sid" -> last non-released session
-	mgr.sessionIterators = []SessionIterator{&vc11Iter{live: live}}
+	var liveOrder []string
+	mgr.sessionIterators = []SessionIterator{&vc11Iter{live: live, order: &liveOrder}}
 	panics := 0
 	guard := func(fn func()) {
 		defer func() {
@@ -712,6 +714,16 @@ func vc11Hist(f []string) string {
 		}
 		if emitted { // the active node's live set (specification side)
 			k := fmt.Sprintf("%d/%d", vc11KindNs(s.kind), s.sid)
+			if _, had := live[k]; had && s.rel {
+				for i, x := range liveOrder {
+					if x == k {
+						liveOrder = append(liveOrder[:i:i], liveOrder[i+1:]...)
+						break
+					}
+				}
+			} else if !had && !s.rel {
+				liveOrder = append(liveOrder, k)
+			}
 			if s.rel {
 				delete(live, k)
 			} else {
